@@ -1,7 +1,7 @@
 (* QueryAddr.v — what a filter over a query in disjunctive form selects, from the path text: the members for which some
    conjunction has all its basic queries true — an existence test is true when its steps reach something, its negation when
    they reach nothing, a comparison when the number reached stands in the relation (!= : when not ==). *)
-From JP Require Import Peg Grammar Slice Text Tree Actions Json Eval WF Spec SortFacts EvalInv1 EvalInv4 EvalTop EndToEnd Codec KeyDefs KeyParse IdxParse SliceParse UnionParse WildParse RecParse ChainParse SpacePath FunParse AggParse FiltParse CmpParse NegFilt QueryParse ChainAddr FunAddr AggAddr FiltAddr CmpAddr SpecRootFree.
+From JP Require Import Peg Grammar Slice Text Tree Actions Json Eval WF Spec SortFacts EvalInv1 EvalInv4 EvalTop EndToEnd Codec KeyDefs KeyParse IdxParse SliceParse UnionParse WildParse RecParse ChainParse SpacePath FunParse AggParse FiltParse CmpParse NegFilt LitParse QueryParse ChainAddr FunAddr AggAddr FiltAddr CmpAddr SpecRootFree.
 From Coq Require Import Lia.
 Open Scope list_scope.
 
@@ -13,6 +13,15 @@ Lemma fold_and {A} (f : A -> bool) l a0 : fold_left (fun a x => a && f x) l a0 =
 Proof. revert a0. induction l as [|x r IH]; intros a0; cbn [fold_left forallb]; [rewrite andb_true_r; reflexivity|]. rewrite IH, andb_assoc. reflexivity. Qed.
 Lemma fold_or {A} (f : A -> bool) l a0 : fold_left (fun a x => a || f x) l a0 = a0 || existsb f l.
 Proof. revert a0. induction l as [|x r IH]; intros a0; cbn [fold_left existsb]; [rewrite orb_false_r; reflexivity|]. rewrite IH, orb_assoc. reflexivity. Qed.
+
+(* does the value a member offers equal the literal? (same JSON type and same content; a number is never a string, ...) *)
+Definition lit_test (v : value) (e : entry) : bool :=
+  match e, v with
+  | Some (VStr s), VStr t => String.eqb s t
+  | Some (VBool p), VBool q => Bool.eqb p q
+  | Some VNull, VNull => true
+  | _, _ => false
+  end.
 
 Section QueryAddr.
   Variable cfg : config.
@@ -30,20 +39,75 @@ Section QueryAddr.
     | BE i => reaches i v
     | BN i => negb (reaches i v)
     | BC i o lit => ctest i o (qnum parse_float lit) v
+    | BL i ne l => if ne then negb (lit_test (litv_value l) (reach1 i v)) else lit_test (litv_value l) (reach1 i v)
     end.
   Definition dnf_test (d : list (list bq)) (v : value) : bool := existsb (fun c => forallb (fun b => bq_test b v) c) d.
 
-  Lemma bq_ok_steps b : bq_ok b = true -> forallb rstep_ok (match b with BE i | BN i | BC i _ _ => i end) = true.
-  Proof. destruct b as [i|i|i o lit]; cbn [bq_ok]; intros H; try exact H. apply andb_true_iff in H. destruct H as [H _]. apply andb_true_iff in H. exact (proj1 H). Qed.
+  Lemma bq_ok_steps b : bq_ok b = true -> forallb rstep_ok (match b with BE i | BN i | BC i _ _ | BL i _ _ => i end) = true.
+  Proof. destruct b as [i|i|i o lit|i ne l]; cbn [bq_ok]; intros H; try exact H; apply andb_true_iff in H; destruct H as [H _]; apply andb_true_iff in H; exact (proj1 H). Qed.
+
+  (* == against a string, boolean or null literal: validate-then-compare over all members is a map of lit_test *)
+  Lemma keeps_direct l e : cmp_keeps regex_match (CDirectEq (litv_vd l)) (validate_to (CDirectEq (litv_vd l)) (Some (litv_value l))) (validate_to (CDirectEq (litv_vd l)) e)
+                           = lit_test (litv_value l) e.
+  Proof.
+    unfold cmp_keeps, validate_to. destruct l as [q body|b sp|sp]; cbn [litv_vd litv_value validator_of validate_entry];
+      (destruct e as [v|]; [destruct v|]; cbn [validate_entry cmp_entry iface_eq fst lit_test]; try reflexivity).
+    - destruct (String.eqb s (text_of body)); reflexivity.
+    - destruct (Bool.eqb b0 b); reflexivity.
+  Qed.
+  Lemma valid_direct l e : is_valid (CDirectEq (litv_vd l)) e = match e, litv_value l with Some (VStr _), VStr _ | Some (VBool _), VBool _ | Some VNull, VNull => true | _, _ => false end.
+  Proof. unfold is_valid. destruct l as [q body|b sp|sp]; cbn [litv_vd litv_value validator_of]; (destruct e as [v|]; [destruct v|]); reflexivity. Qed.
+  Lemma lit_test_valid l e : is_valid (CDirectEq (litv_vd l)) e = false -> lit_test (litv_value l) e = false.
+  Proof. rewrite valid_direct. destruct l as [q body|b sp|sp]; cbn [litv_value]; (destruct e as [v|]; [destruct v|]); cbn [lit_test]; intros H; try reflexivity; discriminate H. Qed.
+
+  Lemma cmp_holds_direct l es :
+    Spec.cmp_holds regex_match (CDirectEq (litv_vd l)) (List.length es) (if existsb (fun x => negb (isE x)) es then es else [None]) (Some (litv_value l))
+    = map (lit_test (litv_value l)) es.
+  Proof.
+    unfold Spec.cmp_holds. cbv zeta.
+    assert (Hrf : is_valid (CDirectEq (litv_vd l)) (Some (litv_value l)) = true) by (destruct l; reflexivity).
+    rewrite Hrf, andb_true_r.
+    assert (Hnone : forall l0, existsb (is_valid (CDirectEq (litv_vd l))) l0 = false -> map (lit_test (litv_value l)) l0 = repeat false (List.length l0)).
+    { induction l0 as [|e l0 IH]; intros H; [reflexivity|]. cbn [existsb] in H. apply orb_false_iff in H. destruct H as [H1 H2].
+      cbn [map List.length repeat]. rewrite (IH H2), (lit_test_valid l e H1). reflexivity. }
+    destruct (existsb (fun x => negb (isE x)) es) eqn:Ee.
+    - destruct (existsb (is_valid (CDirectEq (litv_vd l))) es) eqn:Ev.
+      + rewrite Nat.eqb_refl, map_map. apply map_ext. intros e. apply keeps_direct.
+      + cbn [Bool.eqb]. rewrite (Hnone es Ev). reflexivity.
+    - assert (Ev : existsb (is_valid (CDirectEq (litv_vd l))) [None] = false) by (destruct l; reflexivity).
+      rewrite Ev. cbn [Bool.eqb].
+      assert (Hall : map (lit_test (litv_value l)) es = repeat false (List.length es)).
+      { clear -Ee. induction es as [|e es IH]; [reflexivity|]. cbn [existsb] in Ee. apply orb_false_iff in Ee. destruct Ee as [E1 E2].
+        cbn [map List.length repeat]. rewrite (IH E2). destruct e; [discriminate E1|destruct (litv_value l); reflexivity]. }
+      rewrite Hall. reflexivity.
+  Qed.
+
+  Lemma holds_lit_cmp i l root vals : forallb rstep_ok i = true -> Forall small vals ->
+    holds (lit_cmp cfg i l) root vals = map (fun v => lit_test (litv_value l) (reach1 i v)) vals.
+  Proof.
+    intros Hs Hv. unfold lit_cmp, cmp_left, filter_pq.
+    change (holds (QCmp (CP (PqCur ?n) false) (CP (PqLit ?lv) true) ?c) root vals) with
+      (Spec.cmp_holds regex_match c (List.length vals)
+         (let es0 := map (fun v => match sp n root (None, v) with x :: _ => Some (res_value (Spec.wrap x)) | [] => None end) vals in
+          if existsb (fun x => negb (isE x)) es0 then es0 else [None]) (Some lv)).
+    cbv zeta.
+    assert (E0 : map (fun v => match sp (clear_acc (delete_root (inner_root cfg i))) root (None, v) with x :: _ => Some (res_value (Spec.wrap x)) | [] => None end) vals
+                 = map (reach1 i) vals).
+    { apply map_ext_in. intros v Hin. rewrite Forall_forall in Hv. apply (operand_entry cfg ffun afun regex_match i root v Hs (Hv v Hin)). }
+    rewrite E0. rewrite <- (map_length (reach1 i) vals). rewrite (cmp_holds_direct l), map_map. reflexivity.
+  Qed.
 
   Lemma holds_bq b root vals : bq_ok b = true -> Forall small vals ->
     holds (bq_query cfg parse_float b) root vals = map (bq_test b) vals.
   Proof.
-    intros Hb Hv. pose proof (bq_ok_steps b Hb) as Hs. destruct b as [i|i|i o lit]; cbn [bq_query bq_test].
+    intros Hb Hv. pose proof (bq_ok_steps b Hb) as Hs. destruct b as [i|i|i o lit|i ne l]; cbn [bq_query bq_test].
     - apply (holds_exists cfg ffun afun regex_match i root vals Hs Hv).
     - change (holds (QNot ?q) root vals) with (map negb (holds q root vals)).
       rewrite (holds_exists cfg ffun afun regex_match i root vals Hs Hv), map_map. reflexivity.
     - apply (holds_cmp cfg ffun afun regex_match i o _ root vals Hs Hv).
+    - destruct ne.
+      + change (holds (QNot ?q) root vals) with (map negb (holds q root vals)). rewrite (holds_lit_cmp i l root vals Hs Hv), map_map. reflexivity.
+      + apply (holds_lit_cmp i l root vals Hs Hv).
   Qed.
 
   Lemma holds_and_fold bs : forall q0 h0 root vals, forallb bq_ok bs = true -> Forall small vals ->
